@@ -41,6 +41,8 @@ def build(d, src, envvars, strict=True, extra=None):
             os.unlink(os.path.join(d, n))
     env = {"HOME": d}
     env.update(envvars)
+    # a value that is not UTF-8 is written as "@BYTES:<hex>" in the case (cases are kept as JSON)
+    env = {k: (bytes.fromhex(v[7:]) if v.startswith("@BYTES:") else v) for k, v in env.items()}
     args = (["--no-strict"] if not strict else []) + ["build", "p.ucg"]
     rc, out, err = core.run_ucg(args, cwd=d, env=env)
     art = None
@@ -136,6 +138,12 @@ def work(chunk):
                     null_v = "NULL" if place == "format-argument" else None
                     if rc != 0 or not isinstance(art, dict) or "v" not in art or art["v"] != null_v:
                         bad = ("read-from:%s:unset-nostrict:not-null" % place, {"rc": rc, "artifact": art, "stderr": err[-300:]})
+            elif kind == "read-undecodable":
+                # the variable itself has no string value, so what reading it gives is not laid down; it must not bring the compiler down
+                (strict,) = prm
+                rc, err, art = build(d, "out json {v = env.BADVAR};\n", envv, strict)
+                if rc not in (0, 1) or "panicked" in err:
+                    bad = ("read-undecodable:crash", {"rc": rc, "stderr": err[-300:]})
             elif kind == "read-two":
                 n1, q1, n2, q2, strict = prm
                 rc, err, art = build(d, "let a = %s;\nlet b = %s;\nout json {a = a, b = b};\n" % (sel(n1, q1), sel(n2, q2)), envv, strict)
@@ -224,6 +232,14 @@ def cases(thorough):
         yield ("read-set", big, ("V%02d" % i, False, True))
     yield ("read-unset", big, ("V99", False, True))
     yield ("read-unset", big, ("V99", False, False))
+    # (3a) a variable whose value is not UTF-8 sits in the environment: the other variables read as ever
+    for hx in ("fffe", "6f6b80", "c3", "c328", "eda080"):
+        envv = {"A": "setA", "BADVAR": "@BYTES:" + hx}
+        for strict in (True, False):
+            for quoted in (False, True):
+                yield ("read-set", envv, ("A", quoted, strict))
+                yield ("read-unset", envv, ("ZZ_UNSET", quoted, strict))
+            yield ("read-undecodable", envv, (strict,))
     # (3b) every place env can be read from x set / unset x bare / quoted x strict / --no-strict
     for place, _, _ in PLACES:
         for name in ("A", "ZZ_UNSET"):
